@@ -138,6 +138,17 @@ def run(prog: Program, roots=None, prop="C08") -> Results:
         fallback_handlers(prog, res, closure)
         from sa.rules.c05 import callee_head_acceptance
         callee_head_acceptance(prog, res, "R-C08-5", res.rules["R-C08-5"])
+        # (d) a path running through an inherited (non-set) name is refused, not papered over (shared with R-C05-10)
+        from sa.rules.c05 import creation_sees_inherits
+        _tmp = Results("C08")
+        creation_sees_inherits(prog, _tmp, "R-C08-5")
+        _st5 = _tmp.rules.get("R-C08-5")
+        if _st5:
+            res.rules["R-C08-5"].instances += _st5.instances
+            res.rules["R-C08-5"].obligations += _st5.obligations
+            res.rules["R-C08-5"].discharged += _st5.discharged
+        for _f in _tmp.findings:
+            res.add("R-C08-5", _f.key, _f.where, _f.message)
         # (c) missing outer scope layer: the selector-derived index is dominated by the depth guard (shared with R-C09-2)
         from sa.rules import c09 as _c09
         _sub = _c09.run(prog)
